@@ -59,7 +59,7 @@ Record raw_entry := {
   r_usage_ok : bool }.      (* pkix.ValidateCertificate with KeyUsageDigitalSignature at load time *)
 
 (** the file: unreadable / undecodable / unsupported block  |  its key blocks in file order
-    (a file without any PEM block is [PemOk []]: no error) *)
+    (a file without any PEM block is [PemOk []]) *)
 Inductive pem_file := PemBad | PemOk (es : list raw_entry).
 
 Record entry := {
@@ -67,9 +67,15 @@ Record entry := {
 
 Definition str_in (s : string) (l : list string) : bool := existsb (String.eqb s) l.
 
-(** createEntry: only RSA and ECDSA keys *)
+(** createEntry: only RSA and ECDSA keys, and (since the fix for C19-F2) only of the
+    sizes Entry.JWK knows an algorithm for *)
 Definition create_entry_ok (r : raw_entry) : bool :=
-  match k_kind (r_key r) with KOther => false | _ => true end.
+  let k := r_key r in
+  match k_kind k with
+  | KOther => false
+  | KRsa => Z.eqb (k_size k) 2048 || Z.eqb (k_size k) 3072 || Z.eqb (k_size k) 4096
+  | KEcdsa => Z.eqb (k_size k) 256 || Z.eqb (k_size k) 384 || Z.eqb (k_size k) 521
+  end.
 
 (** verifyAndBuildKeyStore *)
 Fixpoint verify_build (known : list string) (rs : list raw_entry) : res (list entry) :=
@@ -86,11 +92,12 @@ Fixpoint verify_build (known : list string) (rs : list raw_entry) : res (list en
     end
   end.
 
-(** NewKeyStoreFromPEMFile *)
+(** NewKeyStoreFromPEMFile; a file without any private key is an error (since the fix
+    for C19-F1; before it was an empty store) *)
 Definition keystore_of (f : pem_file) : res (list entry) :=
   match f with
   | PemBad => Err
-  | PemOk rs => if forallb create_entry_ok rs then verify_build [] rs else Err
+  | PemOk rs => if forallb create_entry_ok rs then (if is_nil rs then Err else verify_build [] rs) else Err
   end.
 
 (** keyStore.GetKey: the first entry with that id *)
@@ -99,7 +106,8 @@ Definition get_key (id : string) (es : list entry) : option entry :=
 
 (* ------------------------------------------------------------------ Entry.JWK *)
 
-(** Entry.JOSEAlgorithm: [None] = panic("unsupported ... key size") *)
+(** Entry.JOSEAlgorithm: [None] = panic("unsupported ... key size"); unreachable for
+    entries of a store that createKeyStore accepted *)
 Definition jose_alg (k : keyref) : option string :=
   match k_kind k with
   | KRsa => if Z.eqb (k_size k) 2048 then Some "PS256"
@@ -263,11 +271,14 @@ Definition ttl_of (c : config) : Z := match c_ttl c with Some t => t | None => 3
 Definition cache_leeway : Z := 5 * second.
 
 (** calculateCacheKey: signer hash (kid, alg, iss), template hash, ttl, subject hash, outputs.
-    Template, ttl and outputs are constant for one finalizer, so within a run the key is: *)
-Definition ckey := (string * string * string * string)%type.
+    Template, ttl and outputs are constant for one finalizer, so within a run the key is
+    (kid, alg, iss, subject) — and, with the repair proposed for C16-F1 (fixes/C16-F1.diff:
+    jwtSigner.Hash also covers the thumbprint of the public key), the key itself. *)
+Definition ckey := (string * string * string * string * option keyref)%type.
 Definition ckey_eqb (a b : ckey) : bool :=
-  match a, b with (a1, a2, a3, a4), (b1, b2, b3, b4) =>
-    String.eqb a1 b1 && String.eqb a2 b2 && String.eqb a3 b3 && String.eqb a4 b4 end.
+  match a, b with (a1, a2, a3, a4, a5), (b1, b2, b3, b4, b5) =>
+    String.eqb a1 b1 && String.eqb a2 b2 && String.eqb a3 b3 && String.eqb a4 b4
+    && option_eqb keyref_eqb a5 b5 end.
 
 Definition cache := list (ckey * token).
 Fixpoint cache_get (k : ckey) (c : cache) : option token :=
@@ -278,10 +289,12 @@ Fixpoint cache_get (k : ckey) (c : cache) : option token :=
 
 Record world := { w_st : state; w_cache : cache; w_minted : nat }.
 
-(** jwtFinalizer.Execute for a non-nil subject with id [sub] at time [now] *)
-Definition exec (c : config) (w : world) (sub : string) (now : Z) : world * res token :=
+(** jwtFinalizer.Execute for a non-nil subject with id [sub] at time [now];
+    [fixed_F1] = is the repair of C16-F1 in the tree *)
+Definition exec (fixed_F1 : bool) (c : config) (w : world) (sub : string) (now : Z) : world * res token :=
   let st := w_st w in
-  let key : ckey := (j_kid (s_jwk st), j_alg (s_jwk st), issuer c, sub) in
+  let key : ckey := (j_kid (s_jwk st), j_alg (s_jwk st), issuer c, sub,
+                     if fixed_F1 then Some (keyref_of (j_key (s_jwk st))) else None) in
   match (if c_cache c then cache_get key (w_cache w) else None) with
   | Some t => (w, Ok t)
   | None =>
@@ -329,10 +342,10 @@ Inductive oobs :=
 | XErr | XPanic | XDone
 | XJwks (ks : list jwk).
 
-Definition step (c : config) (w : world) (o : op) : world * oobs :=
+Definition step (fixed_F1 : bool) (c : config) (w : world) (o : op) : world * oobs :=
   match o with
   | OExec sub now =>
-    match exec c w sub now with
+    match exec fixed_F1 c w sub now with
     | (w', Ok t) => (w', XToken t (verifies t (jwks c w')))
     | (w', Err) => (w', XErr)
     | (w', Panic) => (w', XPanic)
@@ -346,10 +359,10 @@ Definition step (c : config) (w : world) (o : op) : world * oobs :=
   | OJwks => (w, XJwks (jwks c w))
   end.
 
-Fixpoint steps (c : config) (w : world) (ops : list op) : list oobs :=
+Fixpoint steps (fixed_F1 : bool) (c : config) (w : world) (ops : list op) : list oobs :=
   match ops with
   | [] => []
-  | o :: r => let '(w', x) := step c w o in x :: steps c w' r
+  | o :: r => let '(w', x) := step fixed_F1 c w o in x :: steps fixed_F1 c w' r
   end.
 
 (** newJWTFinalizer: decode (ttl must exceed 1s), newJWTSigner = first load *)
@@ -363,9 +376,9 @@ Definition create (c : config) (f : pem_file) : res world :=
   end.
 
 (** a whole run: creation outcome, then one observation per operation *)
-Definition run (c : config) (f : pem_file) (ops : list op) : res unit * list oobs :=
+Definition run (fixed_F1 : bool) (c : config) (f : pem_file) (ops : list op) : res unit * list oobs :=
   match create c f with
-  | Ok w => (Ok tt, steps c w ops)
+  | Ok w => (Ok tt, steps fixed_F1 c w ops)
   | Err => (Err, [])
   | Panic => (Panic, [])
   end.
